@@ -1,1 +1,183 @@
-fn main() { eprintln!("not implemented"); std::process::exit(2); }
+//! C12 / C13 — bounded-exhaustive history exploration of
+//! `quandary::message::Writer` against an independent reference model.
+//!
+//!   p-writer <C12|C13> <quick|thorough> [--replay FILE]
+
+mod c12;
+mod c13;
+mod dec;
+mod drive;
+mod explore;
+mod families;
+mod ops;
+mod refmodel;
+
+use explore::{explore_family, family_size, Counters, Prop};
+use qvlib::{catch, json, Ctx};
+use std::sync::atomic::Ordering;
+
+/// `Writer::new` / `TryFrom`: every buffer size and limit around the
+/// 12-octet header (part of C12's "size limit in effect").
+fn constructors(ctx: &Ctx) -> u64 {
+    let mut l = ctx.local();
+    let mut n = 0;
+    let sizes: Vec<usize> = (0..=14).chain([512, 65535]).collect();
+    let limits: Vec<Option<usize>> = std::iter::once(None).chain((0..=14).chain([512, 65535, 70000, usize::MAX]).map(Some)).collect();
+    for &buf in &sizes {
+        for &limit in &limits {
+            n += 1;
+            l.tick();
+            let case = json!({"constructor": true, "config": {"buf": buf, "limit": limit.map(|x| x as u64)}});
+            let effective = limit.unwrap_or(buf).min(buf);
+            match catch(|| drive::construct(buf, limit)) {
+                Err(p) => l.violation(&qvlib::panic_key(&p), json!({"constructor": true, "config": {"buf": buf, "limit": limit.map(|x| x as u64)}, "violation": p})),
+                Ok(None) => {
+                    l.outcome("constructor:Err", || case.clone());
+                    if effective >= 12 {
+                        l.violation("constructor:refused", json!({"constructor": true, "config": {"buf": buf, "limit": limit.map(|x| x as u64)}, "violation": "a 12-octet header fits but construction failed"}));
+                    }
+                }
+                Ok(Some(out)) => {
+                    l.outcome("constructor:Ok", || case.clone());
+                    if effective < 12 {
+                        l.violation("constructor:accepted", json!({"constructor": true, "config": {"buf": buf, "limit": limit.map(|x| x as u64)}, "violation": "accepted a buffer/limit that cannot hold a header"}));
+                    } else if out != vec![0u8; 12] {
+                        l.violation(
+                            "constructor:header",
+                            json!({"constructor": true, "config": {"buf": buf, "limit": limit.map(|x| x as u64)}, "violation": format!("a fresh writer finishes to {} instead of a zeroed 12-octet header", qvlib::hex(&out))}),
+                        );
+                    }
+                }
+            }
+        }
+    }
+    n
+}
+
+fn replay_constructor(ctx: &Ctx, case: &qvlib::Value) {
+    let cfg = drive::Config::from_json(case.get("config").unwrap_or(&qvlib::Value::Null));
+    let effective = cfg.limit.unwrap_or(cfg.buf).min(cfg.buf);
+    let r = catch(|| drive::construct(cfg.buf, cfg.limit));
+    println!("replay constructor buf={} limit={:?}: {:?}", cfg.buf, cfg.limit, r.as_ref().map(|o| o.as_ref().map(|x| qvlib::hex(x))));
+    match r {
+        Err(p) => ctx.violation(&qvlib::panic_key(&p), case.clone()),
+        Ok(None) if effective >= 12 => ctx.violation("constructor:refused", case.clone()),
+        Ok(Some(_)) if effective < 12 => ctx.violation("constructor:accepted", case.clone()),
+        Ok(Some(out)) if out != vec![0u8; 12] => ctx.violation("constructor:header", case.clone()),
+        _ => {}
+    }
+}
+
+/// glibc returns freed heap tops to the kernel and maps them again on the
+/// next large allocation; histories with 16 KiB records then spend most of
+/// their time in page faults. Keep the heap (performance only).
+#[cfg(all(target_os = "linux", target_env = "gnu"))]
+fn tune_allocator() {
+    extern "C" {
+        fn mallopt(param: i32, value: i32) -> i32;
+    }
+    const M_TRIM_THRESHOLD: i32 = -1;
+    const M_TOP_PAD: i32 = -2;
+    const M_MMAP_THRESHOLD: i32 = -3;
+    // SAFETY: plain libc tunables, called before any thread is spawned.
+    unsafe {
+        mallopt(M_TRIM_THRESHOLD, 1 << 30);
+        mallopt(M_TOP_PAD, 16 << 20);
+        mallopt(M_MMAP_THRESHOLD, 32 << 20);
+    }
+}
+#[cfg(not(all(target_os = "linux", target_env = "gnu")))]
+fn tune_allocator() {}
+
+fn main() {
+    tune_allocator();
+    let ctx = Ctx::from_args(&["C12", "C13"]);
+    qvlib::reftsig::self_test();
+    let prop = if ctx.id == "C12" { Prop::C12 } else { Prop::C13 };
+
+    if let Some(case) = ctx.replay_case() {
+        let case = case.clone();
+        if case.get("constructor").and_then(|x| x.as_bool()) == Some(true) {
+            replay_constructor(&ctx, &case);
+        } else {
+            match explore::replay(prop, &case) {
+                Ok((viols, shown)) => {
+                    println!("{}", serde_json::to_string_pretty(&shown).unwrap());
+                    for v in viols {
+                        let mut c = case.clone();
+                        c["violation"] = json!(v.detail);
+                        ctx.violation(&v.key, c);
+                    }
+                }
+                Err(e) => {
+                    eprintln!("MACHINERY: bad replay case: {e}");
+                    std::process::exit(2);
+                }
+            }
+        }
+        ctx.finish("model_checking", "replay of one recorded history", false);
+    }
+
+    let mut fams = families::families(prop, ctx.quick());
+    // Debugging aid: restrict the run to one family (the evidence then says
+    // `exhaustive: false`).
+    let only = std::env::var("QVERIF_FAMILY").ok();
+    if let Some(f) = &only {
+        fams.retain(|x| x.name == f);
+        ctx.mark_capped("QVERIF_FAMILY restricts the run to one family");
+    }
+    let cnt = Counters::default();
+    let mut fam_info = Vec::new();
+    let mut expected_total = 0u64;
+    if prop == Prop::C12 {
+        let n = constructors(&ctx);
+        fam_info.push(json!({"family": "constructors", "cases": n, "what": "Writer::new(buf, limit) and TryFrom for buffer sizes 0..=14, 512, 65535 x limits none, 0..=14, 512, 65535, 70000, usize::MAX"}));
+    }
+    for fam in &fams {
+        let t0 = ctx.elapsed_s();
+        let before = cnt.histories.load(Ordering::Relaxed);
+        explore_family(&ctx, prop, fam, &cnt);
+        let n = cnt.histories.load(Ordering::Relaxed) - before;
+        let size = family_size(fam);
+        expected_total += size;
+        fam_info.push(json!({
+            "family": fam.name,
+            "what": fam.what,
+            "alphabet_size": fam.alphabet.len(),
+            "depth": fam.depth,
+            "configurations": fam.configs.len(),
+            "histories_in_space": size,
+            "histories_evaluated": n,
+            "wall_s": ((ctx.elapsed_s() - t0) * 100.0).round() / 100.0,
+        }));
+        eprintln!("[{}] family {}: {} histories ({} in space), {:.1}s", ctx.id, fam.name, n, size, ctx.elapsed_s() - t0);
+    }
+    let histories = cnt.histories.load(Ordering::Relaxed);
+    let pruned = cnt.pruned.load(Ordering::Relaxed);
+    ctx.set_extra("families", json!(fam_info));
+    // Every history is a distinct state (no merging: the writer's hidden
+    // compression state is part of the state); every history but the empty
+    // ones is reached by exactly one transition from its prefix.
+    ctx.set_extra("states", json!(histories));
+    ctx.set_extra("transitions", json!(histories.saturating_sub(fams.iter().map(|f| f.configs.len() as u64).sum::<u64>())));
+    ctx.set_extra("traces_validated_against_impl", json!(histories));
+    ctx.set_extra("writer_runs", json!(cnt.runs.load(Ordering::Relaxed)));
+    ctx.set_extra("writer_operation_calls", json!(cnt.op_calls.load(Ordering::Relaxed)));
+    ctx.set_extra("subtrees_pruned_after_violation", json!(pruned));
+    if prop == Prop::C13 {
+        ctx.set_extra("pointers_checked", json!(cnt.pointers.load(Ordering::Relaxed)));
+        ctx.set_extra("histories_with_pointers", json!(cnt.histories_with_pointer.load(Ordering::Relaxed)));
+    }
+    let complete = histories == expected_total;
+    if !complete && pruned == 0 {
+        eprintln!("MACHINERY: evaluated {histories} histories, the space has {expected_total}");
+        std::process::exit(3);
+    }
+    ctx.assume("the harness's decoder (p-writer/src/dec.rs on qvlib::wire::decode_name) and reference model (refmodel.rs) are correct");
+    ctx.assume("hints are only used where the writer's documented contract allows them");
+    let rule = match prop {
+        Prop::C12 => "every operation sequence over each family's alphabet up to its depth, from every listed configuration, is run from scratch on the real Writer (no state merging), finished, decoded by the harness's independent decoder and compared with a reference model: header, questions, records in order, OPT (payload, extended RCODE), TSIG (fields and RFC 8945 MAC), size <= limit in effect, no Truncation when the uncompressed encoding fits, failed operations leave the finished message unchanged (also compared with the history without them), getters",
+        Prop::C13 => "every operation sequence over each family's alphabet up to its depth is run from scratch on the real Writer (no state merging), finished and decoded; every compression pointer must target the first octet of a literal label of a name field that lies earlier in the message, sit in a QNAME / owner / RDATA name of an RFC 1035 type, never in a name written while compression was disabled, and decompress to the name given; unknown-type and class-specific RDATA must be carried verbatim",
+    };
+    ctx.finish("model_checking", rule, complete);
+}
